@@ -65,6 +65,27 @@ void pair_case(size_t n, std::pair<size_t, size_t> wa) {
       }
     }
   }
+  // operands with a history: a zero object that has been queried and used in a form, then re-assigned (lower order, copy, +=)
+  {
+    auto b = mkspline<ob>(grid, 0, n, "b");
+    auto v = mkspline<FO>(grid, 0, n, "v");
+    for (int how = 0; how < 3; how++) {
+      Spline<Real, oa> h = how == 1 ? a * Real(0) : Spline<Real, oa>(grid);
+      (void)h.isZero();
+      (void)ScalarProduct{}(h, b);
+      (void)BilinearForm{EA::make(c, v), EB::make(c, v)}(h, b);
+      if (how == 0) { if constexpr (oa > 0) { auto low = mkspline<oa - 1>(grid, wa.first, wa.second, "l"); h = low; } else h = a; }
+      if (how == 1) h += a;
+      if (how == 2) { h = a; h *= k; }
+      Real lib = BilinearForm{EA::make(c, v), EB::make(c, v)}(h, b);
+      Real ref(0);
+      size_t lo = h.getSupport().getStartIndex(), hi = h.getSupport().getEndIndex();
+      for (size_t gi = lo; gi + 1 < hi; gi++)
+        ref = ref + pintegral(pmul(EA::ref(piece(h, g, gi), c, v, g, gi), EB::ref(piece(b, g, gi), c, v, g, gi)), g[gi], g[gi + 1]);
+      En.prove("history" + std::to_string(how) + "/integral", sym::eq(lib, ref));
+      En.prove("history" + std::to_string(how) + "/swap-symmetry", sym::eq(BilinearForm{EB::make(c, v), EA::make(c, v)}(b, h), lib));
+    }
+  }
   if constexpr (std::is_same_v<decltype(EA::make(c, a)), IdentityOperator> && std::is_same_v<decltype(EB::make(c, a)), IdentityOperator>) {
     // with both operators the identity the form is the scalar product (and the argument-less deduction guide)
     auto b = mkspline<ob>(grid, 0, n, "b");
